@@ -608,9 +608,12 @@ func (g *Gen) GenNode(depth int, root bool) *Node {
 		return n
 	}
 	if !root && g.Cfg.Mode == "parse" && g.p(g.Cfg.PPre, "pre") {
-		n := &Node{Kind: KPre, PreFn: pick(g, []string{"trim", "maybe", "split", "error", "any", "trim", "maybe", "ptr"}, "prefn")}
+		n := &Node{Kind: KPre, PreFn: pick(g, []string{"trim", "maybe", "split", "error", "any", "trim", "maybe", "ptr", "ptrnum"}, "prefn")}
 		saved := g.Cfg
 		g.Cfg.PPre, g.Cfg.PCoercer, g.Cfg.LeafKinds = 0, 0, []string{KString}
+		if n.PreFn == "ptrnum" {
+			g.Cfg.LeafKinds = []string{KInt}
+		}
 		switch {
 		case n.PreFn == "split":
 			n.Elem = &Node{Kind: KSlice, Elem: g.GenNode(0, false)}
@@ -972,6 +975,16 @@ func (g *Gen) GenTyped(n *Node) Val {
 			leaf = leaf.Elem
 		}
 		v := g.leafValue(leaf)
+		if n.PreFn == "ptrnum" {
+			switch {
+			case g.p(0.3, "pn0"):
+				v = Str("0") // the function returns a pointer to 0: a present value
+			case g.p(0.2, "pnnone"):
+				v = Str("none")
+			default:
+				v = Str(" " + v.S)
+			}
+		}
 		if n.PreFn == "trim" && g.p(0.5, "pad") {
 			v = Str("  " + v.S + " ")
 		}
